@@ -8,6 +8,7 @@ REPO = os.environ.get("VERIF_REPO", "/repo")
 HARNESS = os.path.join(VERIF, "harness")
 NCPU = int(os.environ.get("VERIF_JOBS", "16"))
 TARGET_ROOT = os.path.join(VERIF, "target")
+OUT_ROOT = os.environ.get("VERIF_OUT_ROOT", VERIF)  # evidence/ and replay/ go here (mutant runs redirect it)
 BASE_FLAGS = "--cfg httparse_verif"
 
 
@@ -129,14 +130,7 @@ def build(vname):
     env["VERIF_REPO"] = REPO
     t0 = time.time()
     if v["kind"] == "miri":
-        # build happens as part of `miri run`; here: make sure the sysroot is there and the bins compile
-        env["MIRIFLAGS"] = v["miriflags"]
-        cmd = ["cargo", "+nightly", "miri", "run", "--quiet", "--manifest-path", os.path.join(manifest_dir(), "Cargo.toml"),
-               "--target-dir", td, "--bin", "worker", "--", "canary", "noop"]
-        r = subprocess.run(cmd, env=env, stdout=subprocess.PIPE, stderr=subprocess.STDOUT, text=True)
-        # `canary noop` runs the oracle canaries; exit 0 expected
-        if r.returncode != 0:
-            raise Inconclusive("miri build/run failed for %s:\n%s" % (vname, r.stdout[-3000:]))
+        # the build happens as part of `cargo miri run` in each shard (cargo serialises it)
         _built[vname] = td
         return td
     cmd = ["cargo"] + ([v["tc"]] if v["tc"] else []) + ["build", "--offline" if not v["tc"] else "--offline",
@@ -373,8 +367,8 @@ class Verdict:
 
     # ---- finishing
     def finish(self, rule, assumptions, extra_cov=None, exhaustive=None):
-        os.makedirs(os.path.join(VERIF, "evidence"), exist_ok=True)
-        os.makedirs(os.path.join(VERIF, "replay"), exist_ok=True)
+        os.makedirs(os.path.join(OUT_ROOT, "evidence"), exist_ok=True)
+        os.makedirs(os.path.join(OUT_ROOT, "replay"), exist_ok=True)
         cov = dict(evaluations=int(self.evaluations), distinct_nontrivial=int(self.distinct), rule=rule,
                    samples=self.samples[:10], engines=self.engines)
         cov.update(self.extra)
@@ -391,7 +385,7 @@ class Verdict:
             cov["known_findings_hit"] = self.known_hits
         ev = dict(property_id=self.prop, tier=self.tier, seed=int(self.seed), level="exploration", coverage=cov,
                   assumptions=assumptions, wall_s=round(time.time() - self.t0, 2), violations=len(self.violations))
-        json.dump(ev, open(os.path.join(VERIF, "evidence", self.prop + ".json"), "w"), indent=1)
+        json.dump(ev, open(os.path.join(OUT_ROOT, "evidence", self.prop + ".json"), "w"), indent=1)
         for k in self.known:
             if k.get("status") == "known":
                 sig = k.get("signature", {}).get("rule")
@@ -408,7 +402,7 @@ class Verdict:
                 n += 1
                 if n > 12:
                     break
-                path = os.path.join(VERIF, "replay", "%s-%d.json" % (self.prop, n))
+                path = os.path.join(OUT_ROOT, "replay", "%s-%d.json" % (self.prop, n))
                 json.dump(v, open(path, "w"), indent=1)
                 log("VIOLATION property=%s replay=%s" % (self.prop, path))
                 log("   rule=%s variant=%s %s" % (v["rule"], v.get("variant"), v["detail"][:600]))
